@@ -456,6 +456,12 @@ def run(ck):
         from rules import listops
         from rules.C10 import c10_12
         c10_12(ck, prog, 'C05.12')
+        from rules.C12 import c12_2
+        lib.shared_rule(ck, prog, 'C05.14', 'the destination a message is routed by is read from where it is: every header edit '
+                        'the bus makes before routing (stripping unknown fields, stamping the sender) invalidates the cached '
+                        'field positions before it returns success (shared with C12.2)', 'DOM', 'after an unknown field was '
+                        'stripped the bus reads DESTINATION through a stale offset and delivers a unicast message to the owner '
+                        'of whatever name lies there', 3, c12_2)
         from rules.C11 import c11_8
         c11_8(ck, prog, 'C05.13')
         rq = ck.rule('C05.11', 'the public list operations do what their names say (dbus/dbus-list.c; abstract interpretation of their CFG over every circular list of 0..3 links with equal and distinct data, every link / anchor / data argument, with and without memory for a new link): resulting order, return value, freed and detached links agree with the specification of append, prepend, insert_after, remove (first match), remove_last / find_last (last match), remove_link, clear, get/pop first/last (link), get_length, length_is_one', 'ABS', breaks='messages of one sender overtake each other: the outgoing queue is not first-in first-out when the primitive that takes from it returns another element', floor=15)
